@@ -98,3 +98,58 @@ def bitmap(e, var, width=32):
     Returns (zero_image, [image of bit i for i in range(width)])"""
     z = ev(e, {var: 0})
     return z, [ev(e, {var: 1 << i}) for i in range(width)]
+
+
+def _leafify(e):
+    """member accesses / dereferences become variables named by their canonical text, so that ev() can be used on conditions over fields"""
+    if e is None or not isinstance(e, dict):
+        return e
+    k = e.get("k")
+    if k == "mem" or (k == "un" and e.get("op") == "*"):
+        return {"k": "var", "n": render(strip(e)), "ty": e.get("ty")}
+    out = dict(e)
+    for key in ("e", "l", "r", "c", "t", "f", "b", "i"):
+        if isinstance(out.get(key), dict):
+            out[key] = _leafify(out[key])
+    return out
+
+
+def run_cfg(func, env, start=None, max_steps=64):
+    """follow the CFG of a side-effect-free fragment from block `start` (default: entry) with every branch condition decided by `env`
+    (names: variables and canonical member texts).  Stops at the first return (-> ('ret', element)) or at the first condition that
+    mentions something outside env or contains a call (-> ('open', block id)).  Assignments of constants to variables in env are
+    interpreted; any other element that writes a name in env raises Unknown."""
+    bid = func.entry if start is None else start
+    env = dict(env)
+    steps = 0
+    while steps < max_steps:
+        steps += 1
+        blk = func.blocks[bid]
+        for el in blk.els:
+            if el["k"] == "ret":
+                return ("ret", el)
+            if el["k"] == "asg":
+                tgt = render(strip(el["e"]["l"]))
+                if tgt in env:
+                    if el["e"]["op"] == "=":
+                        try:
+                            env[tgt] = ev(_leafify(el["e"].get("r")), env)
+                        except Unknown:
+                            raise Unknown("assignment to %s not interpretable" % tgt)
+                    else:
+                        raise Unknown("compound assignment to %s" % tgt)
+        br = func.branch(blk)
+        if br:
+            try:
+                v = ev(_leafify(strip(br[0])), env)
+            except Unknown:
+                return ("open", bid)
+            bid = br[1] if v else br[2]
+            if bid is None:
+                return ("open", blk.id)
+            continue
+        nxt = [x for x in blk.succs if x is not None]
+        if len(nxt) != 1:
+            return ("open", bid)
+        bid = nxt[0]
+    raise Unknown("fragment does not terminate within %d steps" % max_steps)
